@@ -168,6 +168,10 @@ func (r *Runner) builtin(ctx context.Context, pos syntax.Pos, name string, args 
 		switch len(args) {
 		case 0:
 			exit = r.lastExit
+			if r.handlingTrap {
+				// In a trap, the status from before the trap was run.
+				exit = r.trapEntryExit
+			}
 		case 1:
 			n, err := strconv.Atoi(args[0])
 			if err != nil {
